@@ -295,6 +295,14 @@ def hand_cases(rng, tier="quick"):
         raw = b"".join(m.raw for m in whole)
         for cut in sorted(set([0, 1, 4, 5, 6, 9, 13, 14, 20, 31, 40, 41, 60, len(raw) - 1, len(raw)] + [rng.randrange(len(raw)) for _ in range(4)])):
             out.append(make_case(rng, role, [M(raw[:cut], "truncated")], eof=1, nseg=3, enc=1 if cut % 2 else 0))
+    # REQUESTs for piece indexes at and beyond the piece count, unchoked, writer released afterwards
+    for role in ("seed", "leechdone", "iseed", "leech"):
+        for idx in (NP, NP + 1, 255, 1 << 16, 1 << 31, 0xFFFFFFFF):
+            for enc in (0, 1):
+                ms = [M(msg(6, be32(idx) + be32(0) + be32(1000)), "req-index-big"), M(msg(4, be32(1)), "have")]
+                out.append(make_case(rng, role, ms, pre=1, enc=enc, nseg=3))
+                ms2 = [M(msg(6, be32(0) + be32(0) + be32(1000)), "req"), M(msg(6, be32(idx) + be32(16) + be32(16384)), "req-index-big")]
+                out.append(make_case(rng, role, ms2, pre=1, enc=enc, nseg=2))
     # REQUESTs whose begin+length wraps around 2^32 (and plain out-of-range ones) on upload-capable roles, unchoked, and
     # the writer is released afterwards (D2): must close that connection only
     for role in ("seed", "leechdone", "iseed", "leech"):
@@ -353,6 +361,10 @@ def free_cases(rng, n):
         else:
             ops = ["B" + bytes(rng.randrange(256) for _ in range(rng.randrange(1, 80))).hex(), "S", "U", "S", "A0"]
         out.append("mode=free v=%d ops=%s" % (v, ",".join(ops)))
+    # endgame takeover by a second peer in the middle of a block (two connections on the same block)
+    for k, (a, b, c) in enumerate([(4000, 8000, 4000), (1, 2, 1), (100, 16000, 300), (0, 600, 600), (5000, 5000, 100),
+                                   (499, 500, 15000), (8000, 4000, 1000), (13, 16384, 0)]):
+        out.append("mode=free v=%d ops=G%d:%d:%d,S" % (1000 + k, a, b, c))
     return out
 
 
